@@ -275,6 +275,19 @@ def main():
             if os.path.exists(p) and json.load(open(p))["status"] == "survived":
                 surv.append(m)
         drive("stage2", w_stage2, sample(surv, pct), n)
+    elif cmd == "patch":
+        # writes /tmp/mu/patches/<id>.patch (git apply format) for one mutant id
+        import difflib
+        os.makedirs(MU + "/patches", exist_ok=True)
+        for m in load():
+            if m["id"] in sys.argv[2:]:
+                a = open("/repo/" + m["file"]).read().split("\n")
+                b = list(a)
+                b[m["line"] - 1] = m["newline"]
+                d = difflib.unified_diff(a, b, "a/" + m["file"], "b/" + m["file"], lineterm="", n=3)
+                out = "%s/patches/%s.patch" % (MU, m["id"].replace(":", "_").replace("#", "_"))
+                open(out, "w").write("\n".join(d) + "\n")
+                print(out)
     elif cmd == "report":
         ms = load()
         s1 = {}
